@@ -14,7 +14,7 @@ var (
 	c28ShiftNegRe   = regexp.MustCompile(`\bshift '?-[0-9]*[1-9]`)
 	c28SubscriptRe  = regexp.MustCompile(`\$\{[!#]?[A-Za-z_][A-Za-z0-9_]*\[[^\]]`)
 	c28AssocLitRe   = regexp.MustCompile(`-[a-zA-Z]*A[a-zA-Z]*\b[^;\n]*=\(`)
-	c28EmptyArgRe   = regexp.MustCompile(`(''|"")`)
+	c28EmptyArgRe   = regexp.MustCompile(`(''|""|[A-Za-z_]=([ ;\n]|$))`)
 	c28ParamAtOpRe  = regexp.MustCompile(`\$\{[^}]*@`)
 	c28TestMatchRe  = regexp.MustCompile(`(?s)\[\[.*(==|=~|!=| = ).*\]\]`)
 	c28BareOptionRe = regexp.MustCompile(`Params\(("[^"]*",)*"[-+]o"(\)|,"")`)
@@ -47,7 +47,7 @@ func init() {
 			return frame == "interp.(*Runner).assignVal" && strings.HasPrefix(msg, "interface conversion: syntax.ArithmExpr is nil") && c28AssocLitRe.MatchString(src(t))
 		}},
 		{"empty-variable-name", func(t c28Case, msg, frame string) bool {
-			// unset '', test -v '', ...
+			// unset '', test -v '', a nameref with an empty target (declare -n r=; echo $r)
 			return frame == "interp.(*Runner).lookupVar" && msg == "variable name must not be empty" && c28EmptyArgRe.MatchString(src(t))
 		}},
 		{"param-at-operator-unknown", func(t c28Case, msg, frame string) bool {
